@@ -96,7 +96,7 @@ func runCorrespondence(kind string, r *Rng, tier string, n int) int {
 	}
 	bad := 0
 	for i, c := range cases {
-		if got[i] != c.expect {
+		if !answerMatches(got[i], c.expect) {
 			if bad < 5 {
 				l := c.line
 				if len(l) > 3000 {
@@ -178,4 +178,26 @@ func genICases(r *Rng, tier string, n int) []corrCase {
 		}
 	}
 	return cs
+}
+
+// answerMatches compares an answer line with the expectation; a field written `name=*` in the expectation
+// matches any value.
+func answerMatches(got, expect string) bool {
+	if got == expect {
+		return true
+	}
+	g, e := strings.Fields(got), strings.Fields(expect)
+	if len(g) != len(e) {
+		return false
+	}
+	for i := range g {
+		if g[i] == e[i] {
+			continue
+		}
+		if strings.HasSuffix(e[i], "=*") && strings.HasPrefix(g[i], strings.TrimSuffix(e[i], "*")) {
+			continue
+		}
+		return false
+	}
+	return true
 }
